@@ -90,7 +90,12 @@ func main() {
 		if *deadline > 0 {
 			dl = time.Unix(*deadline, 0)
 		}
-		res := engine.RunWorker(ck, *tier, *shard, *n, *seed, dl, *trace)
+		findings, ferr := engine.LoadFindings(filepath.Join(verifDir(), "known_findings.json"))
+		if ferr != nil {
+			fmt.Fprintln(os.Stderr, "known_findings.json:", ferr)
+			os.Exit(3)
+		}
+		res := engine.RunWorker(ck, *tier, *shard, *n, *seed, dl, *trace, findings)
 		b, _ := json.Marshal(res)
 		if err := os.WriteFile(*out, b, 0644); err != nil {
 			fmt.Fprintln(os.Stderr, err)
